@@ -239,6 +239,8 @@ def main():
       "hooks": {"guard": "BLOC_VERIF", "enable": "bin/build.sh appends -DBLOC_VERIF to CMAKE_C_FLAGS/CMAKE_CXX_FLAGS of the repository's own CMake build (per sanitizer flavor, cached by tree hash)",
                 "baseline_off_cmd": "bin/baseline_off.sh", "source_commits": hooks, "add_only": True},
       "engines": [{"name": "vprobe", "path": "harness/vprobe.cpp", "serves_properties": sorted(CHECKS), "kind_free_text": "in-process driver of the instrumented libblocc (C++ API + C API), ASan+UBSan"},
+                  {"name": "vthreads", "path": "harness/vthreads.cpp", "serves_properties": ["C14"], "kind_free_text": "clone/thread driver of libblocc, one scenario per process, built with ThreadSanitizer and with ASan+UBSan"},
+                  {"name": "vapi", "path": "harness/vapi.c", "serves_properties": ["C15"], "kind_free_text": "pure-C executor of C-API call sequences (bloc_capi.h only), ASan+UBSan+LeakSanitizer"},
                   {"name": "runner", "path": "py/vlib.py", "serves_properties": sorted(CHECKS), "kind_free_text": "process pool, crash attribution, signatures, known findings, evidence"}],
       "checks": [], "not_applicable": [],
       "notes": "All checks are runtime monitors/sanitizer runs over executions of the real code; see DESIGN.md. Known findings: known_findings.json.",
@@ -249,7 +251,7 @@ def main():
             m["checks"].append({
               "property_id": pid, "quick_cmd": "./check %s --tier quick" % pid, "thorough_cmd": "./check %s --tier thorough" % pid,
               "evidence_file": "evidence/%s.json" % pid, "replay_cmd_template": "./check %s --replay {path}" % pid,
-              "engine": "vprobe", "technique": c["technique"],
+              "engine": {"C14": "vthreads", "C15": "vapi"}.get(pid, "vprobe"), "technique": c["technique"],
               "level_claimed": {"category": "exploration", "text": c["text"], "design_ref": c["design"]},
               "level_note": c["note"]})
         else:
